@@ -80,7 +80,7 @@ const REQS: [&str; 22] = [
     "connect-ok", "connect-refused", "connect-unresolvable", "connect-without-port", "connect-private-forbidden", "connect-never-answers", "get-forwarded-refused", "get-forwarded-ok",
     "get-without-authority", "check", "udp2", "icmp", "get-on-check", "get-on-udp2", "ping", "speedtest-download", "speedtest-upload", "reverse-proxy", "reverse-proxy-origin-down", "connect-bad-authority", "reverse-proxy-upgrade-in-tunnel", "metrics",
 ];
-const AUTHS: [&str; 5] = ["valid", "wrong-password", "malformed", "other-scheme", "absent"];
+const AUTHS: [&str; 7] = ["valid", "wrong-password", "malformed", "other-scheme", "absent", "secret-before-scheme", "secret-only"];
 const SNIS: [&str; 3] = ["none", "good", "bad"];
 const UPSTREAMS: [&str; 4] = ["direct", "socks5", "socks5-extended", "socks5-auth-refused"];
 
@@ -107,6 +107,9 @@ fn proxy_auth(kind: &str) -> Option<Vec<u8>> {
         "wrong-password" => Some(format!("Basic {}", b64(&format!("{USER}:{WRONG_PASS}"))).into_bytes()),
         "malformed" => Some(format!("Basic {MALFORMED}").into_bytes()),
         "other-scheme" => Some(format!("Bearer {BEARER}").into_bytes()),
+        // the secret where a scheme name is expected
+        "secret-before-scheme" => Some(format!("{} Basic", b64(&format!("{USER}:{WRONG_PASS}"))).into_bytes()),
+        "secret-only" => Some(b64(&format!("{USER}:{WRONG_PASS}")).into_bytes()),
         _ => None,
     }
 }
@@ -591,7 +594,7 @@ fn scenarios(tier: Tier) -> Vec<Scn> {
                 for sni in SNIS {
                     for up in UPSTREAMS {
                         // quick: SOCKS5 upstreams only where the request reaches the forwarder with credentials
-                        if tier == Tier::Quick && up != "direct" && !(matches!(req, "connect-ok" | "connect-refused" | "udp2" | "get-forwarded-refused") && matches!(auth, "valid" | "absent")) {
+                        if tier == Tier::Quick && up != "direct" && !(matches!(req, "connect-ok" | "connect-refused" | "udp2" | "get-forwarded-refused") && matches!(auth, "valid" | "absent" | "secret-before-scheme")) {
                             continue;
                         }
                         v.push(Scn { h2, req: req.into(), auth: auth.into(), sni: sni.into(), upstream: up.into() });
